@@ -646,7 +646,22 @@ def bytes_concat(vals):
     return concretize_bytes(mk(mk_concat([term(v) for v in vals]), 'bytes'))
 
 
+def lit_bytes(t):
+    """python bytes if the bytes term is a literal, else None"""
+    out = bytearray()
+    for c in flat_chunks(z3.simplify(t)):
+        if z3.is_app(c) and c.decl().kind() == z3.Z3_OP_SEQ_UNIT and z3.is_bv_value(c.children()[0]):
+            out.append(c.children()[0].as_long())
+        else:
+            return None
+    return bytes(out)
+
+
 def concretize_bytes(v):
+    if isinstance(v, Sym) and v.ty == 'bytes' and v.cls is None:
+        b = lit_bytes(v.t)
+        if b is not None:
+            return b
     return v
 
 
